@@ -5,6 +5,16 @@
 //! * history lines: the real 3pool contract in cw-multi-test (4 users + collector + owner, native and
 //!   cw20 assets, cw20 LP token), one observation after every operation.
 //!
+//! History op lines: `<height> <time> <sender 0..5> <op> <args…>` with the ops
+//!   provide <d0> <d1> <d2> <slip|-> <recv|->      withdraw <lp>      collect      donate <i> <amt>
+//!   swap <offer> <ask> <amt> <belief|-> <maxspread|-> <to|->      config <owner|-> <collector|-> <p,s,b|-> <tog|-> <a,block|->
+//! and the entry points a cw20-LP pool has to refuse (the model answers `err`):
+//!   wdirect <sel> <amt>   ExecuteMsg::WithdrawLiquidity {} sent directly; attached coins by `sel`:
+//!                         0|1|2 = one coin of pool asset i's denom, 3 = one coin "ujunk", 4 = none,
+//!                         5 = two coins (ujunk + ux), 6 = two coins (first native pool denom + ujunk)
+//!   wfake <i> <amt>       cw20 `Send` of pool asset i (if it is a cw20) carrying the WithdrawLiquidity hook
+//!   sfake <ask> <amt>     cw20 `Send` of the LP token carrying the Swap hook (ask asset `ask`)
+//!
 //! Monitors evaluate the properties as stated on the real observations, independent of the Lean
 //! model. `d_exact` is a TEST ORACLE: an exact integer bisection solver for the pool's own invariant,
 //! written here and sharing no code with the contract.
@@ -25,6 +35,8 @@ const E18: u128 = 1_000_000_000_000_000_000;
 const ACCTS: [&str; 6] = ["user0", "user1", "user2", "user3", "collector", "owner"];
 const DENOMS: [&str; 3] = ["ua", "ub", "uc"];
 const FOREIGN: &str = "ux";
+/// a denom unrelated to the pool, held by every account (attached to foreign entry points)
+const JUNK: &str = "ujunk";
 // pinned here on purpose (monitor side): the property's own numbers
 const P_MIN_AMP: u64 = 1;
 const P_MAX_AMP: u64 = 1_000_000;
@@ -483,6 +495,7 @@ impl World {
                     }
                 }
                 cs.push(coin(1u128 << 100, FOREIGN));
+                cs.push(coin(1u128 << 100, JUNK));
                 router.bank.init_balance(storage, &Addr::unchecked(a), cs).unwrap();
             }
         });
@@ -688,6 +701,8 @@ enum ParsedOp {
     Collect,
     Config(Option<usize>, Option<usize>, Option<(u128, u128, u128)>, Option<(bool, bool, bool)>, Option<(u64, u64)>),
     Donate(usize, u128),
+    /// kind 0 = wdirect (sel, amt), 1 = wfake (asset, amt), 2 = sfake (ask, amt)
+    Foreign(u8, usize, u128),
 }
 
 fn parse_op(ws: &[&str]) -> Option<(u64, usize, ParsedOp)> {
@@ -749,6 +764,20 @@ fn parse_op(ws: &[&str]) -> Option<(u64, usize, ParsedOp)> {
                 return None;
             }
             ParsedOp::Donate(i, a[1].parse().ok()?)
+        }
+        ("wdirect", 2) => {
+            let sel: usize = a[0].parse().ok()?;
+            if sel > 6 {
+                return None;
+            }
+            ParsedOp::Foreign(0, sel, a[1].parse().ok()?)
+        }
+        ("wfake", 2) | ("sfake", 2) => {
+            let i: usize = a[0].parse().ok()?;
+            if i >= 3 {
+                return None;
+            }
+            ParsedOp::Foreign(if ws[3] == "wfake" { 1 } else { 2 }, i, a[1].parse().ok()?)
         }
         _ => return None,
     };
@@ -850,6 +879,34 @@ impl Trio {
                     guarded(|| app.execute_contract(sender.clone(), token, &msg, &[]))
                 }
             },
+            ParsedOp::Foreign(0, sel, amt) => {
+                let first_native = (0..3).find(|i| w.native[*i]).map(|i| DENOMS[i]).unwrap_or(FOREIGN);
+                let funds: Vec<Coin> = match *sel {
+                    i @ 0..=2 => vec![coin(*amt, DENOMS[i])],
+                    3 => vec![coin(*amt, JUNK)],
+                    4 => vec![],
+                    5 => vec![coin(*amt, JUNK), coin(*amt, FOREIGN)],
+                    _ => vec![coin(*amt, first_native), coin(*amt, JUNK)],
+                };
+                let app = &mut w.app;
+                guarded(|| app.execute_contract(sender.clone(), pool.clone(), &t::ExecuteMsg::WithdrawLiquidity {}, &funds))
+            }
+            ParsedOp::Foreign(1, i, amt) => match &w.infos[*i] {
+                AssetInfo::Token { contract_addr } => {
+                    let msg = Cw20ExecuteMsg::Send { contract: pool.to_string(), amount: Uint128::new(*amt), msg: to_json_binary(&t::Cw20HookMsg::WithdrawLiquidity {}).unwrap() };
+                    let token = Addr::unchecked(contract_addr);
+                    let app = &mut w.app;
+                    guarded(|| app.execute_contract(sender.clone(), token, &msg, &[]))
+                }
+                AssetInfo::NativeToken { .. } => guarded(|| Err::<AppResponse, _>("a native asset has no Send")),
+            },
+            ParsedOp::Foreign(_, ask, amt) => {
+                let hook = t::Cw20HookMsg::Swap { ask_asset: w.info_of(*ask), belief_price: None, max_spread: Some(Decimal::percent(50)), to: None };
+                let msg = Cw20ExecuteMsg::Send { contract: pool.to_string(), amount: Uint128::new(*amt), msg: to_json_binary(&hook).unwrap() };
+                let lp = w.lp.clone();
+                let app = &mut w.app;
+                guarded(|| app.execute_contract(sender.clone(), lp, &msg, &[]))
+            }
         };
         let after = w.snap();
         let oc = match &res {
@@ -879,6 +936,19 @@ impl Trio {
                 "panic"
             }
         };
+        if let ParsedOp::Foreign(k, a, amt) = &op {
+            // how often each foreign entry point ran, with what, and what the real code answered
+            mon.stat(&format!("{}_{oc}", ws[3]));
+            match k {
+                0 => mon.stat(&format!("wdirect_coins_{}", ["asset0", "asset1", "asset2", "junk", "none", "junk+ux", "native+junk"][*a])),
+                1 => mon.stat(if w.native[*a] { "wfake_native_asset" } else { "wfake_cw20_asset" }),
+                _ => mon.stat("sfake_lp_send"),
+            }
+            if *k == 0 && (*a <= 2 && w.native[*a] || *a == 3) && *amt > 0 && *amt <= before.lpp {
+                mon.stat("wdirect_one_held_coin_amount_within_locked_lp");
+            }
+            mon.stat(&format!("foreign_amount_{}", match *amt { 0 => "0", 1 => "1", 999 => "999", 1000 => "1000", 3000 => "3000", x if x == before.users[u][3] => "own_lp_balance", _ => "other" }));
+        }
         monitors(w, mon, h, u, &op, &res, &before, &after, sim.as_ref());
         let mut line = format!("{oc} {}", after.show());
         if let Some(s) = &sim {
@@ -911,6 +981,13 @@ fn monitors(
     // ---- atomicity: a failed transaction leaves every observable as it was
     if !ok {
         mon.check("C04", "failed_op_changes_nothing", a == b, || format!("before {} after {}", a.show(), b.show()));
+    }
+    // ---- entry points outside the pool's operations (direct WithdrawLiquidity on a cw20-LP pool, hooks
+    //      arriving from the wrong token) are refused: nothing but an LP `Send` withdraws, nothing but a
+    //      pool asset swaps
+    if let ParsedOp::Foreign(k, _, _) = op {
+        let name = ["withdraw_only_through_lp_token", "withdraw_only_through_lp_token", "swap_hook_only_from_pool_asset"][*k as usize];
+        mon.check("C04", name, !ok, || format!("foreign entry point accepted: before {} after {}", a.show(), b.show()));
     }
     // ---- C04 solvency: balance >= reported reserve + pending protocol fee, per asset
     for i in 0..3 {
@@ -971,6 +1048,7 @@ fn monitors(
                         ParsedOp::Collect => "collect",
                         ParsedOp::Donate(..) => "donate",
                         ParsedOp::Config(..) => "config",
+                        ParsedOp::Foreign(..) => "foreign",
                     };
                     let strict = d_per_lp_ok(da, a.lps, db, b.lps, 1);
                     // how many base units of D are missing for the per-LP value to be unchanged
